@@ -202,6 +202,7 @@ func ruleLookupGuard(c *Ctx) {
 		substR := map[types.Object]string{recv: "\u00abrecv\u00bb"}
 		o := c.ob(rule, "scan:"+fn, fd.Pos(), true, "")
 		nontrivial := false
+		directIndex := false
 		ast.Inspect(fd.Body, func(n ast.Node) bool {
 			switch x := n.(type) {
 			case *ast.IndexExpr:
@@ -214,6 +215,7 @@ func ruleLookupGuard(c *Ctx) {
 				if _, isMap := f.Type().Underlying().(*types.Map); !isMap {
 					return true
 				}
+				directIndex = true
 				for _, cl := range c.literalsAt(fd, x) {
 					s, neg := c.normLit(cl, substK, defs)
 					if neg || !strings.Contains(s, "\u00abname\u00bb") {
@@ -249,8 +251,134 @@ func ruleLookupGuard(c *Ctx) {
 			}
 			return true
 		})
+		// the consultation of a map sits in a helper: the same obligation, read off the effect normal form
+		if !directIndex {
+			for _, g := range c.simIndexGuards(fd) {
+				nontrivial = true
+				good := decGuards[g.field][g.guard]
+				c.ob(rule, fn+":"+g.field.Name()+"[token] if "+g.guard, fd.Pos(), good,
+					"member "+g.field.Name()+" is consulted only for names with "+g.guard+", but the decoders file names into it under: "+keysOf(decGuards[g.field])+" - a name the decoder accepts is not found by the lookup")
+			}
+		}
 		o.Trivial = !nontrivial
 	}
+}
+
+type indexGuard struct {
+	field *types.Var
+	guard string
+}
+
+// simIndexGuards: on the effect normal form of a JSONLookup, the positive conditions on the token under which a
+// map of the receiver is consulted with it, rendered like normLit renders the decoder's predicates.
+func (c *Ctx) simIndexGuards(fd *ast.FuncDecl) []indexGuard {
+	recv, tok := c.recvObj(fd), c.paramObj(fd, 0)
+	paths, unsup := c.simulate(fd, nil)
+	if unsup != "" || recv == nil || tok == nil {
+		return nil
+	}
+	var render func(v sval) (string, bool)
+	render = func(v sval) (string, bool) {
+		switch x := v.(type) {
+		case svPath:
+			if x.root == tok && len(x.steps) == 0 {
+				return "\u00abname\u00bb", true
+			}
+			return "", false
+		case svConst:
+			return x.v.ExactString(), true
+		case svCall:
+			f, ok := x.callee.(*types.Func)
+			if !ok || f.Pkg() == nil || x.idx != 0 || x.recv != nil {
+				return "", false
+			}
+			var as []string
+			for _, a := range x.args {
+				r, ok := render(a)
+				if !ok {
+					return "", false
+				}
+				as = append(as, r)
+			}
+			return f.Pkg().Name() + "." + f.Name() + "(" + strings.Join(as, ", ") + ")", true
+		case svBin:
+			l, ok1 := render(x.x)
+			r, ok2 := render(x.y)
+			if !ok1 || !ok2 {
+				return "", false
+			}
+			return l + " " + x.op.String() + " " + r, true
+		}
+		return "", false
+	}
+	seen := map[string]bool{}
+	var out []indexGuard
+	for _, p := range paths {
+		for i, cd := range p.conds {
+			h, ok := cd.v.(svHas)
+			if !ok || cd.loop {
+				continue
+			}
+			ip, isTok := h.i.(svPath)
+			mp, isRecv := h.x.(svPath)
+			if !isTok || ip.root != tok || len(ip.steps) != 0 || !isRecv || mp.root != recv || len(mp.steps) == 0 {
+				continue
+			}
+			// the field designated by the receiver path
+			var field *types.Var
+			t := recv.Type()
+			for _, stp := range mp.steps {
+				st, ok := derefType(t).Underlying().(*types.Struct)
+				if !ok {
+					field = nil
+					break
+				}
+				field = nil
+				for k := 0; k < st.NumFields(); k++ {
+					if st.Field(k).Name() == stp {
+						field = st.Field(k)
+						t = field.Type()
+					}
+				}
+				if field == nil {
+					break
+				}
+			}
+			if field == nil {
+				continue
+			}
+			for _, g := range p.conds[:i] {
+				if g.loop {
+					continue
+				}
+				v, neg := g.v, g.neg
+				if b, isB := v.(svBin); isB && b.op == token.NEQ {
+					// normLit writes x != y as the negation of x == y
+					l, ok1 := render(b.x)
+					r, ok2 := render(b.y)
+					if ok1 && ok2 && neg && strings.Contains(l+r, "\u00abname\u00bb") {
+						key := field.Name() + "|" + l + " == " + r
+						if !seen[key] {
+							seen[key] = true
+							out = append(out, indexGuard{field, l + " == " + r})
+						}
+					}
+					continue
+				}
+				s, ok := render(v)
+				if !ok || neg || !strings.Contains(s, "\u00abname\u00bb") {
+					continue
+				}
+				key := field.Name() + "|" + s
+				if !seen[key] {
+					seen[key] = true
+					out = append(out, indexGuard{field, s})
+				}
+			}
+		}
+	}
+	sort.Slice(out, func(i, j int) bool { return out[i].field.Name()+out[i].guard < out[j].field.Name()+out[j].guard })
+	return out
 }
 
 func (c *Ctx) recvTypeName(fd *ast.FuncDecl) string {
